@@ -1208,3 +1208,16 @@ Proof.
 Qed.
 
 End Sentinel.
+
+Lemma Forall2_nth_perm {X} (l l' : list (list X)) :
+  Forall2 (@Permutation X) l l' -> forall i, Permutation (nth i l []) (nth i l' []).
+Proof.
+  induction 1 as [|x y l l' Hxy Hl IH]; intros i; [destruct i; constructor|].
+  destruct i; [exact Hxy|apply IH].
+Qed.
+
+Lemma Forall2_length' {X Y} (P : X -> Y -> Prop) l l' : Forall2 P l l' -> length l = length l'.
+Proof. induction 1; simpl; congruence. Qed.
+
+Lemma indexed_in_rows {X} (l : list X) i r : In (i, r) (indexed l) -> In r l.
+Proof. intros H. apply indexed_from_in in H. destruct H as [_ H]. eapply nth_error_In. exact H. Qed.
